@@ -9,6 +9,9 @@ import (
 	"sort"
 	"strings"
 
+	"golang.org/x/tools/go/callgraph"
+	"golang.org/x/tools/go/callgraph/cha"
+	"golang.org/x/tools/go/callgraph/vta"
 	"golang.org/x/tools/go/packages"
 	"golang.org/x/tools/go/ssa"
 	"golang.org/x/tools/go/ssa/ssautil"
@@ -52,6 +55,31 @@ type Ctx struct {
 	AllPkgs []*packages.Package
 	// statistics
 	NFuncs int
+
+	cg *callgraph.Graph
+}
+
+// Callees resolves a call instruction through the VTA call graph built over the
+// repository's own functions (seeded with CHA).
+func (c *Ctx) Callees(ci ssa.CallInstruction) []*ssa.Function {
+	if c.cg == nil {
+		funcs := map[*ssa.Function]bool{}
+		for _, fn := range c.RepoFuncs() {
+			funcs[fn] = true
+		}
+		c.cg = vta.CallGraph(funcs, cha.CallGraph(c.Prog))
+	}
+	n := c.cg.Nodes[ci.Parent()]
+	if n == nil {
+		return nil
+	}
+	var out []*ssa.Function
+	for _, e := range n.Out {
+		if e.Site == ci && e.Callee != nil && e.Callee.Func != nil {
+			out = append(out, e.Callee.Func)
+		}
+	}
+	return out
 }
 
 type LoadOpts struct {
